@@ -581,6 +581,7 @@ class Unit:
             toks = rw.run(toks)
             self.bump_rules(rw.counts)
         toks = self.r10_for_ref_patterns(toks)
+        toks = self.r11_lazy_static(toks)
         for old, new in spec.get("subst", []):
             # S4: explicit, logged substitution of one expression (for constructs neither Verus nor the rules can express)
             otoks = [t.text for t in L.lex(old) if not L.is_trivia(t)]
@@ -674,6 +675,37 @@ class Unit:
                                 "contract": spec["clauses"], "file": rel, "lines": [it.first_line, it.last_line],
                                 "clauses": len(spec["clauses"]), "loop_specs": sum(len(v) for v in spec["loops"].values()),
                                 "body_tokens": len(code_toks(body))})
+
+    def r11_lazy_static(self, toks):
+        """R11: `lazy_static! { static ref NAME: TYPE = EXPR; }` inside a body -> `let NAME: TYPE = EXPR;`
+        (a lazily initialised immutable static and a local binding of the same expression denote the same value)."""
+        out = list(toks)
+        i = 0
+        while i < len(out):
+            if out[i].kind == L.IDENT and out[i].text == "lazy_static":
+                j = L.skip_trivia(out, i + 1, len(out))
+                if out[j].text == "!":
+                    b = L.skip_trivia(out, j + 1, len(out))
+                    if out[b].text != "{":
+                        raise Unsupported("lazy_static shape")
+                    e = L.match_close(out, b)
+                    inner = [t for t in out[b + 1:e] if not L.is_trivia(t)]
+                    if len(inner) < 6 or inner[0].text != "static" or inner[1].text != "ref" or inner[-1].text != ";":
+                        raise Unsupported("lazy_static block is not a single `static ref`")
+                    body = out[b + 1:e]
+                    # drop `static ref`, keep the rest verbatim
+                    k = 0
+                    dropped = 0
+                    new = []
+                    for t in body:
+                        if dropped < 2 and not L.is_trivia(t) and t.text in ("static", "ref"):
+                            dropped += 1
+                            continue
+                        new.append(t)
+                    out = out[:i] + [L.Tok(L.IDENT, "let", out[i].line)] + new + out[e + 1:]
+                    self.log["rules"]["R11"] = self.log["rules"].get("R11", 0) + 1
+            i += 1
+        return out
 
     def r10_for_ref_patterns(self, toks):
         """R10: `for &PAT in E { BODY }` -> `for PAT__r in E { let PAT = *PAT__r; BODY }` (Verus has no ref patterns;
